@@ -287,10 +287,8 @@ func judgeSelection(list []ent, cf cfg, got int) (step, clause, disc string) {
 		class = "unlisted-version"
 	case list[got].B && step != "fallback-newest" && step != "dev":
 		return step, "blacklisted-only-as-last-resort", "want-" + step + "-got-blacklisted" + listTags(list)
-	case list[got].v.cmp(list[ok[0]].v) < 0:
-		class = "older"
 	default:
-		class = "newer"
+		class = "other-version"
 	}
 	return step, "selection-cascade", "want-" + step + "-got-" + class + listTags(list)
 }
@@ -328,6 +326,65 @@ type witness struct {
 	Version    string `json:"version,omitempty"`
 	// selected-versions
 	Resources int `json:"resources,omitempty"`
+}
+
+// ---------- deterministic violation reporting ----------
+
+// collector keeps, per signature, the violation with the smallest enumeration position, so that the
+// witness written to the replay file does not depend on which worker got there first.
+type vrec struct {
+	pos                        [4]int
+	clause, site, disc, detail string
+	wit                        witness
+	n                          int
+}
+
+type collector struct {
+	mu sync.Mutex
+	m  map[string]*vrec
+}
+
+var col = &collector{m: map[string]*vrec{}}
+
+func posLess(a, b [4]int) bool {
+	for i := range a {
+		if a[i] != b[i] {
+			return a[i] < b[i]
+		}
+	}
+	return false
+}
+
+func (k *collector) add(pos [4]int, clause, site, disc string, detail func() string, wit witness) {
+	sig := clause + "|" + site + "|" + disc
+	k.mu.Lock()
+	defer k.mu.Unlock()
+	r := k.m[sig]
+	if r == nil {
+		k.m[sig] = &vrec{pos: pos, clause: clause, site: site, disc: disc, detail: detail(), wit: wit, n: 1}
+		return
+	}
+	r.n++
+	if posLess(pos, r.pos) {
+		r.pos, r.detail, r.wit = pos, detail(), wit
+	}
+}
+
+// flush hands the collected violations to vlib in enumeration order.
+func (k *collector) flush(c *vlib.Ctx) {
+	k.mu.Lock()
+	defer k.mu.Unlock()
+	var recs []*vrec
+	for _, r := range k.m {
+		recs = append(recs, r)
+	}
+	sort.Slice(recs, func(i, j int) bool { return posLess(recs[i].pos, recs[j].pos) })
+	for _, r := range recs {
+		for i := 0; i < r.n; i++ {
+			c.Violate(r.clause, r.site, r.disc, r.detail, r.wit)
+		}
+	}
+	k.m = map[string]*vrec{}
 }
 
 // ---------- worker context: one storage directory and registry factory per worker ----------
@@ -467,7 +524,7 @@ func subsets(alpha []string, maxK int) [][]string {
 // order, blacklist flags set) and then applies the registry settings one after the other, each followed by
 // SelectVersions, comparing every selection with the cascade. Returns the deciding step per setting
 // ("" after a violation).
-func runSelectPool(c *vlib.Ctx, reg *updater.ResourceRegistry, order []ent, cfgs []cfg, verbose bool) []string {
+func runSelectPool(c *vlib.Ctx, reg *updater.ResourceRegistry, order []ent, cfgs []cfg, pos [2]int, verbose bool) []string {
 	steps := make([]string, len(cfgs))
 	reg.ResetResources()
 	w := witness{Part: "select", Versions: order}
@@ -509,7 +566,8 @@ func runSelectPool(c *vlib.Ctx, reg *updater.ResourceRegistry, order []ent, cfgs
 			sel, _ = reg.GetVersion(resID)
 		})
 		if p != nil {
-			c.Violate("selection-cascade", "selectVersion", "panic:"+vlib.PanicSite(stack), fmt.Sprintf("versions %v settings %v: panic %v", order, w.CfgSeq, p), w)
+			w.CfgSeq = append([]string{}, w.CfgSeq...)
+			col.add([4]int{1, pos[0], pos[1], ci}, "selection-cascade", "selectVersion", "panic:"+vlib.PanicSite(stack), func() string { return fmt.Sprintf("versions %v settings %v: panic %v", order, w.CfgSeq, p) }, w)
 			return steps
 		}
 		sn := snapshot(res)
@@ -545,8 +603,10 @@ func runSelectPool(c *vlib.Ctx, reg *updater.ResourceRegistry, order []ent, cfgs
 		}
 		if clause != "" {
 			_, ok := prescribed(model, cf)
-			c.Violate(clause, "selectVersion", disc,
-				fmt.Sprintf("registry %s, versions added %v: the documented order prescribes %s (step %s), selectVersion chose %s", cf, order, model[ok[0]].Num, step, selName(sel)), w)
+			w.CfgSeq = append([]string{}, w.CfgSeq...)
+			col.add([4]int{1, pos[0], pos[1], ci}, clause, "selectVersion", disc, func() string {
+				return fmt.Sprintf("registry %s, versions added %v: the documented order prescribes %s (step %s), selectVersion chose %s", cf, order, model[ok[0]].Num, step, selName(sel))
+			}, w)
 			return steps
 		}
 		steps[ci] = step
@@ -646,7 +706,7 @@ func partSelect(c *vlib.Ctx, wp *pool) {
 				e.P = e.P || e.v.pre != ""
 				ml[i] = e
 			}
-			for ci, step := range runSelectPool(c, reg, order, rot, false) {
+			for ci, step := range runSelectPool(c, reg, order, rot, [2]int{ji, m}, false) {
 				n++
 				local[step]++
 				if step != "" && step != "none" {
@@ -730,13 +790,18 @@ type world struct {
 	purged int
 	// reporting
 	wit     witness
+	pos     [4]int
 	bad     bool
 	verbose bool
 }
 
 func (w *world) violate(clause, site, disc, detail string) {
 	w.bad = true
-	w.c.Violate(clause, site, disc, fmt.Sprintf("seed %s (%s, %s) history %v: %s", w.wit.Seed, w.wit.Phase, w.wit.Cfg, w.wit.History, detail), w.wit)
+	wit := w.wit
+	wit.History = append([]string{}, wit.History...)
+	col.add(w.pos, clause, site, disc, func() string {
+		return fmt.Sprintf("seed %s (%s, %s) history %v: %s", wit.Seed, wit.Phase, wit.Cfg, wit.History, detail)
+	}, wit)
 }
 
 type opDef struct {
@@ -1165,13 +1230,13 @@ type seedInst struct {
 }
 
 // runHistory replays prefix(phase)+hist on a fresh registry. Returns the canonical key ("" after a violation).
-func runHistory(c *vlib.Ctx, wc *wctx, ops []opDef, byName map[string]int, sd seedInst, hist []uint8, verbose bool) (key, outcome string, nontrivial bool) {
+func runHistory(c *vlib.Ctx, wc *wctx, ops []opDef, byName map[string]int, sd seedInst, hist []uint8, pos [4]int, verbose bool) (key, outcome string, nontrivial bool) {
 	reg, err := wc.registry(sd.cf)
 	if err != nil {
 		c.EngineError("registry: %v", err)
 		return "", "engine-error", false
 	}
-	w := &world{c: c, dir: wc.dir, reg: reg, idx: sd.cf.index(), cf: sd.cf, files: map[string]bool{}, verbose: verbose,
+	w := &world{pos: pos, c: c, dir: wc.dir, reg: reg, idx: sd.cf.index(), cf: sd.cf, files: map[string]bool{}, verbose: verbose,
 		wit: witness{Part: "history", Seed: seedPools[sd.pool].name, Phase: sd.phase, Cfg: sd.cf.String()}}
 	for _, x := range seedPools[sd.pool].vers {
 		if err := reg.AddResource(resID, x.Num, w.idx, x.A, x.C, x.P); err != nil {
@@ -1272,7 +1337,7 @@ func partHistories(c *vlib.Ctx, wp *pool, label string, ops []opDef, alphabet []
 	{
 		wc := <-wp.ch
 		for si, sd := range seeds {
-			k, _, _ := runHistory(c, wc, ops, byName, sd, nil, false)
+			k, _, _ := runHistory(c, wc, ops, byName, sd, nil, [4]int{2, 0, si, 0}, false)
 			if k == "" {
 				continue
 			}
@@ -1305,9 +1370,9 @@ func partHistories(c *vlib.Ctx, wp *pool, label string, ops []opDef, alphabet []
 			h := append(append(make([]uint8, 0, len(nd.hist)+1), nd.hist...), 0)
 			local := map[string]int64{}
 			var out []succ
-			for _, oi := range alphabet {
+			for ai, oi := range alphabet {
 				h[len(h)-1] = uint8(oi)
-				k, outc, nt := runHistory(c, wc, ops, byName, seeds[nd.seed], h, false)
+				k, outc, nt := runHistory(c, wc, ops, byName, seeds[nd.seed], h, [4]int{2, depth, fi, ai}, false)
 				if last {
 					local[outc]++
 					continue
@@ -1385,7 +1450,7 @@ func partHistories(c *vlib.Ctx, wp *pool, label string, ops []opDef, alphabet []
 // Part C: file names
 // =====================================================================
 
-func checkName(c *vlib.Ctx, id, version string, verbose bool) string {
+func checkName(c *vlib.Ctx, id, version string, pos [2]int, verbose bool) string {
 	w := witness{Part: "filename", Identifier: id, Version: version}
 	want := refVersionedPath(id, version)
 	var name, id2, v2 string
@@ -1399,15 +1464,23 @@ func checkName(c *vlib.Ctx, id, version string, verbose bool) string {
 	}
 	switch {
 	case p != nil:
-		c.Violate("filename-roundtrip", "filename", "panic:"+vlib.PanicSite(stack), fmt.Sprintf("identifier %q version %q: panic %v", id, version, p), w)
+		col.add([4]int{0, pos[0], pos[1], 0}, "filename-roundtrip", "filename", "panic:"+vlib.PanicSite(stack), func() string { return fmt.Sprintf("identifier %q version %q: panic %v", id, version, p) }, w)
 	case name != want:
-		c.Violate("filename-roundtrip", "GetVersionedPath", "wrong-name", fmt.Sprintf("GetVersionedPath(%q,%q)=%q, the documented format gives %q", id, version, name, want), w)
+		col.add([4]int{0, pos[0], pos[1], 0}, "filename-roundtrip", "GetVersionedPath", "wrong-name", func() string {
+			return fmt.Sprintf("GetVersionedPath(%q,%q)=%q, the documented format gives %q", id, version, name, want)
+		}, w)
 	case !ok:
-		c.Violate("filename-roundtrip", "GetIdentifierAndVersion", "not-recognised", fmt.Sprintf("GetIdentifierAndVersion(%q) not ok; it is the name of (%q,%q)", want, id, version), w)
+		col.add([4]int{0, pos[0], pos[1], 0}, "filename-roundtrip", "GetIdentifierAndVersion", "not-recognised", func() string {
+			return fmt.Sprintf("GetIdentifierAndVersion(%q) not ok; it is the name of (%q,%q)", want, id, version)
+		}, w)
 	case id2 != id:
-		c.Violate("filename-roundtrip", "GetIdentifierAndVersion", "wrong-identifier", fmt.Sprintf("GetIdentifierAndVersion(%q)=(%q,%q), made from (%q,%q)", want, id2, v2, id, version), w)
+		col.add([4]int{0, pos[0], pos[1], 0}, "filename-roundtrip", "GetIdentifierAndVersion", "wrong-identifier", func() string {
+			return fmt.Sprintf("GetIdentifierAndVersion(%q)=(%q,%q), made from (%q,%q)", want, id2, v2, id, version)
+		}, w)
 	case v2 != version:
-		c.Violate("filename-roundtrip", "GetIdentifierAndVersion", "wrong-version", fmt.Sprintf("GetIdentifierAndVersion(%q)=(%q,%q), made from (%q,%q)", want, id2, v2, id, version), w)
+		col.add([4]int{0, pos[0], pos[1], 0}, "filename-roundtrip", "GetIdentifierAndVersion", "wrong-version", func() string {
+			return fmt.Sprintf("GetIdentifierAndVersion(%q)=(%q,%q), made from (%q,%q)", want, id2, v2, id, version)
+		}, w)
 	default:
 		return "filename:roundtrip-ok"
 	}
@@ -1465,8 +1538,8 @@ func partNames(c *vlib.Ctx) {
 	var okN, badN int64
 	c.ParallelFor(len(ids), func(i int) {
 		var o, b int64
-		for _, v := range versions {
-			if checkName(c, ids[i], v, false) == "filename:roundtrip-ok" {
+		for vi, v := range versions {
+			if checkName(c, ids[i], v, [2]int{i, vi}, false) == "filename:roundtrip-ok" {
 				o++
 			} else {
 				b++
@@ -1644,6 +1717,7 @@ func partSelectedVersions(c *vlib.Ctx, base string) {
 
 func main() {
 	vlib.Main("C19", "model_checking", func(c *vlib.Ctx) {
+		defer col.flush(c)
 		log.SetLogLevel(log.CriticalLevel)
 		base := ""
 		if st, err := os.Stat("/dev/shm"); err == nil && st.IsDir() {
@@ -1668,7 +1742,7 @@ func main() {
 		c.Rule(fmt.Sprintf("A: every set of <=4 (thorough: <=5, and <=4 of a 7-version alphabet with 0.0.0-beta and two suffixes of one triple) versions of {0.0.0,1.0.0,1.1.0,1.2.0-beta,2.0.0} x every (available, blacklisted, explicit pre-release) vector x every choice of <=1 current release x 2 insertion orders x all 24 registry settings (online, dev mode, use pre-releases, index none/no-auto-download/auto-download), each pool built through AddResource on a fresh resource, then the 24 settings applied one after the other (rotating start) with SelectVersions after each; "+
 			"B: BFS over operation histories, quick: depth 3 over %d operations (selectVersion, GetFile, Purge(0..3), Blacklist of 7 state-relative targets, toggles of dev mode/pre-releases/online, AddVersion of 4 new/existing/alias-spelled versions x 6 flag combinations), thorough: the same to depth 4 and all %d operations (Purge(5), 8 versions x 8 flag combinations) to depth 3, from %d pools of 1-8 versions x {nothing selected, selected and handed out} x 3 (wide: 6) registry settings, every history replayed on fresh resource objects (registry emptied, settings reset) over a real storage directory (files written before and listed after every Purge), states de-duplicated on (settings, version list in list order with flags, selected, active, files); "+
 			"C: every identifier (<=2 directories, 9 base names, <=2 extensions) x version ({0,1,12,007}^3, 5 suffixes) of the file-name format; ScanStorage on real files; D: GetSelectedVersions for 0-3 resources x 24 settings. "+
-			"non-trivial = A: cases whose prescribed version is not the newest listed; B: distinct states with a purged file, a blacklisted version or active != selected; C: identifiers with directory and extension", len(narrowOps(ops)), len(ops), len(seedPools)))
+			"non-trivial = A: cases whose prescribed version is not the newest listed; B: distinct states with a purged file, a blacklisted version or active != selected; C: identifiers with directory and extension x versions with a suffix; D: cases with at least one resource", len(narrowOps(ops)), len(ops), len(seedPools)))
 		c.Assume("selection is compared where the code computes it (selectVersion/SelectVersions, a successful Blacklist, a GetFile with nothing selected); AddResource is documented as 'does not select new version', so a stale SelectedVersion between AddVersion and the next selection is not a violation")
 		c.Assume("'files of at least the requested number of further versions are still on disk' is read as: at least keep (or all) of the listed versions that are not active/selected/newest stable lose no file; a listed version that had no file counts as kept")
 		c.Assume("newest stable version = newest listed version without the pre-release flag other than the dev version 0.0.0; active version = the version the registry's GetFile handed out last")
@@ -1694,13 +1768,17 @@ func main() {
 					}
 					cfgs = append(cfgs, cf)
 				}
+				if len(cfgs) == 0 {
+					c.EngineError("replay: witness holds no settings sequence")
+					return
+				}
 				reg, err := newRegistry(wc.dir, cfg{})
 				if err != nil {
 					c.EngineError("registry: %v", err)
 					return
 				}
-				steps := runSelectPool(c, reg, w.Versions, cfgs, true)
-				fmt.Printf("replayed select case -> steps %q violation=%v\n", steps, len(steps) == 0 || steps[len(steps)-1] == "")
+				steps := runSelectPool(c, reg, w.Versions, cfgs, [2]int{}, true)
+				fmt.Printf("replayed select case -> steps %q violation=%v\n", steps, steps[len(steps)-1] == "")
 				c.Add(1, int64(len(cfgs)), 1)
 			case "history":
 				cf, ok := parseCfg(w.Cfg)
@@ -1724,11 +1802,11 @@ func main() {
 					hist = append(hist, uint8(i))
 				}
 				fmt.Printf("replaying seed %s (%s, %s)\n", w.Seed, w.Phase, w.Cfg)
-				k, out, _ := runHistory(c, wc, ops, byName, seedInst{pi, w.Phase, cf}, hist, true)
+				k, out, _ := runHistory(c, wc, ops, byName, seedInst{pi, w.Phase, cf}, hist, [4]int{}, true)
 				fmt.Printf("replayed history %v -> outcome %s key=%q violation=%v\n", w.History, out, k, k == "")
 				c.Add(1, int64(len(hist)), 1)
 			case "filename":
-				fmt.Printf("replayed file name -> %s\n", checkName(c, w.Identifier, w.Version, true))
+				fmt.Printf("replayed file name -> %s\n", checkName(c, w.Identifier, w.Version, [2]int{}, true))
 				c.Add(1, 2, 1)
 			case "scan":
 				if w.Identifier == "" {
